@@ -700,17 +700,22 @@ class KeychainSqlite3(Keychain):
         if name not in self:
             raise KeyError(f'Identity {Name.to_str(id_name)} does not exist')
         identity = self[name]
-        key_name, pub_key = self.tpm.generate_key(name, key_type, **kwargs)
-        signer = self.tpm.get_signer(key_name)
-        cert_name, cert_data = self_sign(key_name, pub_key, signer)
-        key_name = Name.to_bytes(key_name)
-        cert_name = Name.to_bytes(cert_name)
-        with self.conn:
-            self.conn.execute('INSERT INTO keys (identity_id, key_name, key_bits) VALUES (?, ?, ?)',
-                              (identity.row_id, key_name, pub_key))
-            self.conn.execute('INSERT INTO certificates (key_id, certificate_name, certificate_data)'
-                              'VALUES ((SELECT id FROM keys WHERE key_name=?), ?, ?)',
-                              (key_name, cert_name, bytes(cert_data)))
+        formal_key_name, pub_key = self.tpm.generate_key(name, key_type, **kwargs)
+        try:
+            signer = self.tpm.get_signer(formal_key_name)
+            cert_name, cert_data = self_sign(formal_key_name, pub_key, signer)
+            key_name = Name.to_bytes(formal_key_name)
+            cert_name = Name.to_bytes(cert_name)
+            with self.conn:
+                self.conn.execute('INSERT INTO keys (identity_id, key_name, key_bits) VALUES (?, ?, ?)',
+                                  (identity.row_id, key_name, pub_key))
+                self.conn.execute('INSERT INTO certificates (key_id, certificate_name, certificate_data)'
+                                  'VALUES ((SELECT id FROM keys WHERE key_name=?), ?, ?)',
+                                  (key_name, cert_name, bytes(cert_data)))
+        except Exception:
+            # Do not leave a private key behind that no Key refers to
+            self.tpm.delete_key(formal_key_name)
+            raise
 
         if not identity.has_default_key():
             identity.set_default_key(key_name)
